@@ -200,6 +200,11 @@ func genConc(g *sim.Stream, tier string) *concProg {
 	w("te := spawn(func(k) { error(\"boom %%d\", k) }, a)")
 	w("a = 78")
 	w("ra := ta.wait()")
+	if g.Bool() {
+		// the bound method handed to try, then a second wait: both report the error
+		w("r0 := try(te.wait, func(e) { return \"caught:\" + string(e) })")
+		w("if r0 != \"caught:boom 77\" { error(\"first wait gave \" + string(r0)) }")
+	}
 	w("re := try(func() { return te.wait() }, func(e) { return \"caught:\" + string(e) })")
 	w("[ra, re]")
 	p.Src = b.String()
